@@ -69,6 +69,13 @@ def make_pwm(nr, r, length, grid):
 	return nr.dirichlet([r.choice([0.1, 0.5, 2.0])] * 4, size=length).T.copy()
 
 
+def make_onehot(r, length):
+	a = numpy.zeros((4, length))
+	for j in range(length):
+		a[r.randrange(4), j] = 1.0
+	return a
+
+
 def make_case(params):
 	r = gen.pyrng("C13", params["cseed"])
 	nr = gen.nprng("C13", params["cseed"])
@@ -79,6 +86,18 @@ def make_case(params):
 	Qs[-1] = make_pwm(nr, r, 1, grid)
 	Ts = [make_pwm(nr, r, r.randint(1, 25), grid)
 		for _ in range(params["n_t"])]
+	if params.get("degenerate"):
+		# queries without any score range (flat or unknown columns against
+		# one-hot targets: every target column is equally far) next to
+		# ordinary queries
+		Ts = [make_onehot(r, r.randint(1, 25)) for _ in Ts]
+		flat = numpy.full((4, r.choice([1, 2, 3])), 0.25)
+		unknown = numpy.concatenate([make_onehot(r, 1), numpy.zeros((4,
+			r.choice([1, 2])))], axis=1)
+		Qs[1] = flat
+		Qs[len(Qs) // 2] = unknown
+		Qs[-2] = flat.copy()
+		Qs[0] = make_onehot(r, 25)
 	if params.get("dup_targets") and len(Ts) >= 3:
 		# identical targets: exact p-value ties inside every row
 		Ts[-1] = Ts[0].copy()
@@ -489,7 +508,7 @@ def gen_params(seed, k):
 		"n_target_bins": r.choice([None, None, 100, 20]),
 		"n_score_bins": r.choice([10, 25, 50, 100, 100, 200]),
 		"grid": r.choice(["fine", "fine", "coarse"]),
-		"dup_targets": k % 2 == 1}
+		"dup_targets": k % 2 == 1, "degenerate": k % 6 == 5}
 
 
 def plan(tier, seed):
